@@ -86,7 +86,7 @@ CHECKS = {
              "over every raw value of its wire type through decode/encode and through the reader/writer path in both byte orders; key-frame times over all 65536 "
              "raws x 41 (quick) / 1026 (thorough) durations; the numpy variant over the full arange. Clauses: inverse, monotonic, endpoints, exact zero.",
         note="Quantisers constructed lazily inside function bodies are not seen by the walk; classes overriding the quantisation arithmetic are held to inverse, "
-             "monotonic and the lower end only; duration 0.0 checked for totality only; two open known findings (PackedTERotation raw -32768, mesh normals have no exact zero)."),
+             "monotonic and the lower end only; duration 0.0 checked for totality only; all clauses run in both reader modes (pod=False/True) incl. vector wrappers through the wire path; two open known findings (PackedTERotation raw -32768, mesh normals have no exact zero)."),
     "C13": dict(
         category="exploration", design_ref="DESIGN.md §4 C13",
         technique="bounded-exhaustive differential enumeration: all 2^11 section-flag combinations x object kinds, per-section content variants, and byte mutations "
@@ -96,7 +96,9 @@ CHECKS = {
              "decoded by the hand-optimised reader and by the declarative template and compared field by field; the template re-encoding is compared byte for byte; "
              "the tracker's normalisation is compared with a plain-Python reference on the network and the cache-file path.",
         note="Domain = what the template's own serialize emits plus byte mutations of it; a mutated payload is judged only if the template decodes it and re-encodes "
-             "it to itself; PCodes outside the enum are counted, not asserted; enums by value, dataclasses by fields, lazy proxies forced, floats bit-exact."),
+             "it to itself; PCodes outside the enum are counted, not asserted; enums by value, dataclasses by fields, lazy proxies forced, floats bit-exact; decode "
+             "histories of depth 3 (decode, in-place edit of the result, decode again by all four decoder paths on the same, twin and shifted payloads), one forked "
+             "process per history; copy.deepcopy trusted."),
     "C18": dict(
         category="model_checking", design_ref="DESIGN.md §4 C18",
         technique="explicit-state BFS over the real FilteringMessageLogger plus bounded-exhaustive enumeration of filter expression trees, leaf comparisons and export/import cases",
